@@ -16,19 +16,30 @@ use stun_types::attribute::*;
 use stun_types::message::*;
 use stun_types::TransportType;
 
+use crate::ext::{self, CredDesc};
+
 pub struct Universe {
     pub tids: BTreeMap<i64, TransactionId>,
     pub addrs: BTreeMap<String, SocketAddr>,
     pub local: SocketAddr,
     pub keys: BTreeMap<String, MessageIntegrityCredentials>,
+    pub descs: BTreeMap<String, CredDesc>,
 }
 
-fn cred_for(name: &str, variant: u64) -> MessageIntegrityCredentials {
+pub fn cred_desc(name: &str, variant: u64) -> CredDesc {
     // variant selects short-term / long-term credentials; the key *identity* is the name
-    if variant % 2 == 0 {
-        ShortTermCredentials::new(format!("pässword-{name}")).into()
+    match variant % 3 {
+        0 => CredDesc { long: false, user: String::new(), realm: String::new(), password: format!("pässword-{name}") },
+        1 => CredDesc { long: true, user: format!("user:{name}"), realm: "realm.example".into(), password: format!("pw {name}") },
+        // same account (user, realm), the keys differ only in the password
+        _ => CredDesc { long: true, user: "shared user".into(), realm: "réalm".into(), password: format!("pw:{name}") },
+    }
+}
+pub fn lib_cred(d: &CredDesc) -> MessageIntegrityCredentials {
+    if d.long {
+        LongTermCredentials::new(d.user.clone(), d.password.clone(), d.realm.clone()).into()
     } else {
-        LongTermCredentials::new(format!("user:{name}"), format!("pw {name}"), "realm.example".to_string()).into()
+        ShortTermCredentials::new(d.password.clone()).into()
     }
 }
 
@@ -64,10 +75,13 @@ impl Universe {
             addrs.insert(format!("a{}", i + 1), cands[(i + off) % 6]);
         }
         let mut keys = BTreeMap::new();
+        let mut descs = BTreeMap::new();
         for k in ["k1", "k2", "k3"] {
-            keys.insert(k.to_string(), cred_for(k, cred_variant));
+            let d = cred_desc(k, cred_variant);
+            keys.insert(k.to_string(), lib_cred(&d));
+            descs.insert(k.to_string(), d);
         }
-        Universe { tids, addrs, local: "127.0.0.1:9000".parse().unwrap(), keys }
+        Universe { tids, addrs, local: "127.0.0.1:9000".parse().unwrap(), keys, descs }
     }
     fn tid_index(&self, id: TransactionId) -> Value {
         for (i, t) in &self.tids {
@@ -168,6 +182,8 @@ struct Run<'u> {
     sent: BTreeMap<i64, (String, Vec<u8>)>,
     cancelled: BTreeSet<i64>,
     last_until_ms: Option<i64>,
+    seal_ext: bool,
+    other_tid_outstanding: bool,
 }
 
 impl<'u> Run<'u> {
@@ -321,9 +337,12 @@ impl<'u> Run<'u> {
                         _ => MessageClass::Error,
                     };
                     // a fresh id, or (for responses) possibly the id of an outstanding request
-                    let tid = match s.get("tid").and_then(|x| x.as_i64()) {
-                        Some(ti) => self.u.tids[&ti],
-                        None => TransactionId::from(0x7777_0000_1111_2222_3333_4444u128),
+                    let outstanding = self.u.tids.values().copied().find(|t| self.agent.request_transaction(*t).is_some());
+                    let tid = match (s.get("tid").and_then(|x| x.as_i64()), outstanding) {
+                        (Some(ti), _) => self.u.tids[&ti],
+                        // e.g. a response to a peer's request that happens to reuse the id of one of ours
+                        (None, Some(t)) if self.other_tid_outstanding => t,
+                        _ => TransactionId::from(0x7777_0000_1111_2222_3333_4444u128),
                     };
                     let mut b = Message::builder(MessageType::from_class_method(mcls, BINDING), tid);
                     for at in &attrs {
@@ -368,21 +387,40 @@ impl<'u> Run<'u> {
                 let integ = s.get("integ").and_then(|x| x.as_str()).unwrap_or("none").to_string();
                 let alg = s.get("alg").and_then(|x| x.as_str()).unwrap_or(&self.resp_alg).to_string();
                 ev["alg"] = json!(alg);
-                let signer = match integ.as_str() {
+                let signer_name: Option<String> = match integ.as_str() {
                     "none" => None,
-                    "corrupt" => Some(self.agent.remote_credentials().unwrap_or(self.u.keys["k1"].clone())),
-                    k => Some(self.u.keys[k].clone()),
+                    "corrupt" => Some(match self.u.key_token(&self.agent.remote_credentials()).as_str() {
+                        Some(k) if self.u.keys.contains_key(k) => k.to_string(),
+                        _ => "k1".to_string(),
+                    }),
+                    k => Some(k.to_string()),
                 };
-                if let Some(c) = &signer {
-                    for al in alg_list(&alg) {
-                        b.add_message_integrity(c, al).unwrap();
-                    }
-                }
                 let with_fp = integ != "corrupt" && (self.seed + self.resp_cls_toggle) % 3 == 0;
-                if with_fp {
-                    b.add_fingerprint().unwrap();
+                let mut bytes;
+                if self.seal_ext {
+                    // sealed by the harness itself with RustCrypto primitives (not by the code under test)
+                    bytes = b.build();
+                    if let Some(k) = &signer_name {
+                        let key = self.u.descs[k].key();
+                        for al in alg_list(&alg) {
+                            bytes = ext::seal(bytes, &key, al == IntegrityAlgorithm::Sha256, 32);
+                        }
+                    }
+                    if with_fp {
+                        bytes = ext::fingerprint(bytes);
+                    }
+                } else {
+                    if let Some(k) = &signer_name {
+                        let c = self.u.keys[k].clone();
+                        for al in alg_list(&alg) {
+                            b.add_message_integrity(&c, al).unwrap();
+                        }
+                    }
+                    if with_fp {
+                        b.add_fingerprint().unwrap();
+                    }
+                    bytes = b.build();
                 }
-                let mut bytes = b.build();
                 if integ == "corrupt" {
                     // flip one bit inside the value of the integrity attribute that will be checked (the last one)
                     let n = bytes.len();
@@ -484,6 +522,18 @@ pub fn run_script(script: &Value) -> Vec<Value> {
     let mut decoy_agents: Vec<StunAgent> = (0..decoys)
         .map(|i| StunAgent::builder(if i % 2 == 0 { TransportType::Udp } else { TransportType::Tcp }, u.local).build())
         .collect();
+    if decoys > 0 {
+        // unrelated agents of the same process have already used the same accounts with other passwords
+        for d in u.descs.values() {
+            let other = CredDesc { password: format!("{} (decoy)", d.password), ..d.clone() };
+            let mut m = Message::builder_request(BINDING);
+            let _ = m.add_message_integrity(&lib_cred(&other), IntegrityAlgorithm::Sha1);
+            let bytes = m.build();
+            if let Ok(msg) = Message::from_bytes(&bytes) {
+                let _ = msg.validate_integrity(&lib_cred(&other));
+            }
+        }
+    }
     let mut agent_b = StunAgent::builder(transport, u.local);
     if let Some(r) = script.get("remote_addr").and_then(|x| x.as_str()) {
         agent_b = agent_b.remote_addr(u.addrs[r]);
@@ -503,6 +553,8 @@ pub fn run_script(script: &Value) -> Vec<Value> {
         sent: BTreeMap::new(),
         cancelled: BTreeSet::new(),
         last_until_ms: None,
+        seal_ext: script["seal"].as_str() == Some("ext"),
+        other_tid_outstanding: script["other_tid"].as_str() == Some("outstanding"),
     };
     let _ = run.transport;
     let mut events = vec![];
